@@ -140,6 +140,8 @@ pub fn run_scenario(sc: &Scenario, run: u64, agg: &mut Agg, pre: &dyn Fn(&Scenar
 pub fn run_seq_sweep(arm: &str, seed: u64, run: u64, agg: &mut Agg, explicit: Option<&Scenario>) -> Option<ViolationRecord> {
     let par = arm == "par-sweep";
     let opts = if par { ArmOpts { parallel: true, max_threads: 3, knapsack_quarters: 1, ..Default::default() } } else if arm == "seq-sweep-nodup" { ArmOpts { force_nodup: true, reconverge: true, force_cache: Some(false), knapsack_quarters: 3, ..Default::default() } } else { ArmOpts { knapsack_quarters: 1, ..Default::default() } };
+    // one swept instance in five starts from a warm-start primal (primal x every cutoff point)
+    let opts = ArmOpts { primal: mix(seed, 0x9a1) % 5 == 0, ..opts };
     let base = match explicit { Some(s) => s.clone(), None => { let mut s = solve::generate(arm, seed, opts); s.cut = CutPlan::Never; s } };
     let mut viol: Vec<Violation> = vec![];
     let full = solve::execute(&base);
